@@ -327,11 +327,11 @@ func scaledJobs(c *vkit.Ctx, limit int) []job {
 	var nCut, nTok, nMal int
 	switch limit {
 	case 64:
-		nCut, nTok, nMal = c.N(100000, 4000000), c.N(40000, 1800000), c.N(60000, 2000000)
+		nCut, nTok, nMal = c.N(400000, 4000000), c.N(160000, 1800000), c.N(240000, 2000000)
 	case 256:
-		nCut, nTok, nMal = c.N(60000, 2800000), c.N(24000, 1200000), c.N(40000, 1600000)
+		nCut, nTok, nMal = c.N(240000, 2800000), c.N(96000, 1200000), c.N(160000, 1600000)
 	default:
-		nCut, nTok, nMal = c.N(30000, 1200000), c.N(14000, 800000), c.N(20000, 800000)
+		nCut, nTok, nMal = c.N(120000, 1200000), c.N(56000, 800000), c.N(80000, 800000)
 	}
 	per := 2000
 	if !c.Quick() {
